@@ -426,6 +426,7 @@ func runOpts(c *Ctx) {
 
 	// =============== OPTDELEG: delegation between option constructors keeps the labels
 	c.runOptDeleg()
+	c.runSubtableInstall()
 
 	// =============== NILOPT-F: no nil *Func enters a converter list (the graph builders dereference every entry)
 	c.runNilFunc()
@@ -1145,7 +1146,7 @@ func (c *Ctx) runTags(walker *ssa.Function) {
 				return fromSplitRest(x.Tuple, d+1)
 			case *ssa.Call:
 				switch core.CalleeName(x.Common()) {
-				case "strings.Cut", "strings.SplitN", "strings.TrimSpace", "strings.ToLower":
+				case "strings.Cut", "strings.SplitN":
 					return fromSplitRest(x.Common().Args[0], d+1)
 				}
 			case *ssa.UnOp:
@@ -1163,6 +1164,28 @@ func (c *Ctx) runTags(walker *ssa.Function) {
 		okSrc = fromSplitRest(mu.Key, 0)
 		if !okSrc {
 			fromRest = false
+		}
+		// the value is the empty constant or, likewise, an exact substring of the part (never trimmed, folded or
+		// otherwise rewritten: the writers render names and subtypes verbatim)
+		if s0, isK := core.ConstString(mu.Value); !(isK && s0 == "") {
+			var valueOK func(v ssa.Value, d int) bool
+			valueOK = func(v ssa.Value, d int) bool {
+				if ph, ok := v.(*ssa.Phi); ok && d < 4 {
+					for _, e := range ph.Edges {
+						if !valueOK(e, d+1) {
+							return false
+						}
+					}
+					return true
+				}
+				if s1, isK := core.ConstString(v); isK && s1 == "" {
+					return true
+				}
+				return fromSplitRest(v, 0)
+			}
+			if !valueOK(mu.Value, 0) {
+				fromRest = false
+			}
 		}
 		for _, l := range core.Lits(core.Guards(mu.Block())) {
 			if l.Kind == "cmp" && l.Op == token.EQL {
@@ -1554,6 +1577,25 @@ func (c *Ctx) runReject(walker *ssa.Function) {
 		}
 		c.R.Add("REJECT", "isStruct|all-pointer-levels", "isStruct", p.Pos(isStruct.Pos()), loop,
 			"marker detection unwraps every pointer level (so that multiply indirected marker structs reach the depth check instead of being taken for plain values)", fmt.Sprintf("loop=%v", loop))
+		// the marker is looked for among the struct's OWN fields, one by one (Type.Field(i)): a lookup by name
+		// (FieldByName) or over the visible fields also finds a marker promoted from an embedded struct and misses one
+		// embedded under an alias name
+		if mf := c.markerFieldPredicate(); mf != nil {
+			how, n := "", 0
+			for _, ci := range p.RegionCalls(isStruct) {
+				if ci.Common().StaticCallee() != mf || len(ci.Common().Args) != 1 {
+					continue
+				}
+				n++
+				a := core.Strip(ci.Common().Args[0])
+				if fc, ok := a.(*ssa.Call); ok && fc.Common().IsInvoke() && fc.Common().Method.Name() == "Field" && core.TypeStr(fc.Common().Value.Type()) == "reflect.Type" {
+					continue
+				}
+				how = "the field handed to the marker test comes from " + core.Path(a)
+			}
+			c.R.Add("REJECT", "isStruct|scans-own-fields", "isStruct", p.Pos(isStruct.Pos()), n > 0 && how == "",
+				"a type is a marker struct exactly when one of its own fields (Type.Field(i)) is the marker field — promoted fields and lookups by name are not used", ternary(how == "", fmt.Sprintf("%d marker test(s) on Type.Field(i)", n), how))
+		}
 	}
 	// the marker field: recognised only when the field is embedded (Anonymous) AND of the marker type — a named field
 	// of that type is an ordinary value
